@@ -82,12 +82,19 @@ KINDS = ["proc-short", "proc-zero", "proc-extra", "proc-extra-filter", "proc-ext
          "proc-poschange", "proc-posempty", "proc-mixed", "dest-empty", "dest-more", "dest-ooo",
          "dest-wrongpos", "dest-closeerr", "dest-writeerr", "dest-openerr", "dest-teardownerr",
          "src-emptypos", "src-duppos", "src-readerr", "src-openerr", "src-teardownerr",
-         "proc-openerr", "proc-teardownerr", "dlq-openerr", "dlq-ooo", "cond-short", "cond-extra"]
+         "proc-openerr", "proc-teardownerr", "dlq-openerr", "dlq-ooo", "cond-short", "cond-extra", "dest-early-ack"]
 
 
 def illformed(engine, rng, i):
     S, D, P = dpgen.src, dpgen.dst, dpgen.proc
+    kind = KINDS[(i // 2) % len(KINDS)]
     nrec = rng.randint(2, 5)
+    early_batch = 0
+    if kind == "dest-early-ack":
+        # every other scenario ends exactly with its first full batch (nothing follows the early answer: an engine that
+        # lost part of it can only wait), the others go on (a lost part shows as a mismatch later)
+        early_batch = 2 + (i // (2 * len(KINDS))) % 2
+        nrec = early_batch if (i // (4 * len(KINDS))) % 2 == 0 else nrec + 2
     tags = ["s1#%d" % (k + 1) for k in range(nrec)]
     batches = [nrec] if rng.random() < 0.5 else [rng.choice([1, 2])] * nrec
     M = rng.choice([1, 1, 2])
@@ -96,7 +103,6 @@ def illformed(engine, rng, i):
     procs = []
     feats = set()
     # every shape class on every engine equally often (i // 2 walks the classes, i % 2 is the engine), the rest seeded
-    kind = KINDS[(i // 2) % len(KINDS)]
     feats.add(kind)
     where = rng.choice(["pipeline", "s1", "d1"])
     workers = rng.choice([1, 1, 2]) if engine == "v1" else 1
@@ -120,6 +126,14 @@ def illformed(engine, rng, i):
         procs.append(P("p1", where, workers, {t: rng.choice(ks) for t in tags}))
         procs.append(P("p2", rng.choice(["pipeline", "d1"]), 1, {t: rng.choice(ks) for t in tags},
                        short={"1": 1} if rng.random() < 0.3 else {}))
+    elif kind == "dest-early-ack":
+        # well-formed but early: a batching destination whose answer for a whole batch reaches the engine before the
+        # write call that completed the batch has returned (several acks in one response, the later ones for records
+        # the engine has not yet registered as awaiting an answer)
+        for d in dests:
+            d["batch"] = early_batch
+            d["early_ack"] = True
+            d["batch_delay_ms"] = 15
     elif kind.startswith("dest-") and kind not in ("dest-writeerr", "dest-openerr", "dest-teardownerr"):
         dests[0]["reply"] = kind[5:]
         dests[0]["reply_at"] = rng.randint(1, 2)
@@ -179,7 +193,7 @@ def nontrivial(sc, tr):
     faulted = any(e["ev"] in ("Fault", "IllReply", "Panic", "Hang") for e in tr) or \
         any(e["ev"] == "Open" and not e.get("ok", True) for e in tr) or \
         any(e["ev"] == "Proc" and e["kind"] in ("unknown", "poschange", "posempty") for e in tr) or \
-        sc["ill"] in ("src-emptypos", "src-duppos", "dest-teardownerr", "src-teardownerr", "proc-teardownerr", "proc-mixed")
+        sc["ill"] in ("src-emptypos", "src-duppos", "dest-teardownerr", "src-teardownerr", "proc-teardownerr", "proc-mixed", "dest-early-ack")
     if not faulted:
         return None
     end = next((e for e in tr if e["ev"] == "End"), {})
@@ -194,13 +208,16 @@ def run(tier, seed):
     n = 8 * 2 * len(KINDS) if quick else 20000     # quick: every class 8 times per engine
     scs = [illformed("v1" if i % 2 == 0 else "v2", rng, i) for i in range(n)]
     chk.run(scs, name="illformed")
+    # the condition merge inside both engines: every match mask of one batch, short answers, an unevaluable condition
+    csz = (3, 4) if quick else (3, 4, 5, 6)
+    chk.run(dpgen.cond_scenarios("v1", csz) + dpgen.cond_scenarios("v2", csz), name="cond-masks")
     # "an error from any call": the outcome x fault matrix (stream ends with every special error identity, store
     # failures, empty positions, stops with a dead-letter write in flight) must neither panic nor hang either engine
     per = 2 if quick else 40
     chk.run(dpgen.matrix_scenarios("v1", rng, per, False) + dpgen.matrix_scenarios("v2", rng, per, False), name="matrix")
     chk.validate()
     return chk.finish(nontrivial,
-                      "engine level: one ill-formed reply shape per scenario (28 shape classes x both engines x "
+                      "engine level: one ill-formed reply shape per scenario (29 shape classes x both engines x "
                       "placement / call number / batch shape, seeded); condition alignment: every TLC-enumerated "
                       "(n, mask, output vector, deviation) case through the real RunnableProcessor; non-trivial = the "
                       "ill-formed reply was actually delivered; distinct = distinct (engine, shape class, fan-out, "
